@@ -27,17 +27,31 @@ def serialise(results):
 
 
 class Workers:
-    """persistent child interpreters, one per hash seed"""
+    """persistent child interpreters, one per hash seed; the first one is restarted every RESTART questions so
+    that its answers come from a process with (almost) no call history"""
+    RESTART = 96
 
     def __init__(self, hash_seeds):
         self.procs = []
+        self.asked = 0
         for hs in hash_seeds:
-            e = dict(os.environ, PYTHONHASHSEED=str(hs), PYTHONPATH=env.VERIF, VERIF_REPO=env.REPO)
-            p = subprocess.Popen([sys.executable, '-u', '-m', 'vlib.rule_worker'], cwd=env.VERIF, env=e,
-                                 stdin=subprocess.PIPE, stdout=subprocess.PIPE, stderr=subprocess.DEVNULL, text=True)
-            self.procs.append((hs, p))
+            self.procs.append([hs, self._spawn(hs)])
+
+    def _spawn(self, hs):
+        e = dict(os.environ, PYTHONHASHSEED=str(hs), PYTHONPATH=env.VERIF, VERIF_REPO=env.REPO)
+        return subprocess.Popen([sys.executable, '-u', '-m', 'vlib.rule_worker'], cwd=env.VERIF, env=e,
+                                stdin=subprocess.PIPE, stdout=subprocess.PIPE, stderr=subprocess.DEVNULL, text=True)
 
     def ask(self, q):
+        self.asked += 1
+        if self.asked % self.RESTART == 0:
+            hs, p = self.procs[0]
+            try:
+                p.stdin.close()
+                p.wait(timeout=5)
+            except Exception:
+                p.kill()
+            self.procs[0][1] = self._spawn(hs)
         line = json.dumps(q) + '\n'
         for _, p in self.procs:
             p.stdin.write(line)
@@ -194,7 +208,9 @@ def build_case(data, invs, seens):
     lang = t.pick(['en', 'en', 'ja'])
     op = t.weighted([(7, 'binary'), (1, 'unary')])
     if op == 'unary':
-        pool = invs[lang]
+        # unary tables are keyed by categories with feature triples (every shipped table is); the inventory's
+        # featureless *START* / *END* markers are not unary-rule inputs
+        pool = [m for m in invs[lang] if not (lang == 'ja' and m[0] == 'a' and m[2] is None)]
         keys = [t.pick(pool) for _ in range(t.int(1, 4))]
         keys = list(dict.fromkeys(keys))
         table = [(k, [t.pick(pool) for _ in range(t.below(3))]) for k in keys]
